@@ -146,6 +146,16 @@ pub fn run(op: &str, rd: &mut Rd) -> Option<R> {
             let raised = BezPath::from_path_segments(bp.segments().map(|s| PathSeg::Cubic(s.to_cubic())));
             Ok(format!("{} {} {} {} {} {}", e(bp.area()), e(rev.area()), e(tr.area()), e(a.determinant()), e(split.area()), e(raised.area())))
         })(),
+        // solvers
+        "solve.quadratic" => (|| -> R { let c0 = rd.num()?; let c1 = rd.num()?; let c2 = rd.num()?; Ok(e_list(&common::solve_quadratic(c0, c1, c2))) })(),
+        "solve.cubic" => (|| -> R { let c0 = rd.num()?; let c1 = rd.num()?; let c2 = rd.num()?; let c3 = rd.num()?; Ok(e_list(&common::solve_cubic(c0, c1, c2, c3))) })(),
+        "solve.quartic" => (|| -> R { let c0 = rd.num()?; let c1 = rd.num()?; let c2 = rd.num()?; let c3 = rd.num()?; let c4 = rd.num()?; Ok(e_list(&common::solve_quartic(c0, c1, c2, c3, c4))) })(),
+        "solve.itp" => (|| -> R {
+            let c0 = rd.num()?; let c1 = rd.num()?; let c2 = rd.num()?; let c3 = rd.num()?;
+            let a = rd.num()?; let b = rd.num()?; let eps = rd.num()?; let n0 = rd.nat()?; let k1 = rd.num()?;
+            let f = |x: f64| ((c3 * x + c2) * x + c1) * x + c0;
+            Ok(e(common::solve_itp(f, a, b, eps, n0, k1, f(a), f(b))))
+        })(),
         _ => return None,
     })
 }
